@@ -595,9 +595,26 @@ def replay(r):
                 for kk, v in d.items():
                     bad[f"{tag}:{kk}"] = v
         else:
-            A = concrete_workspace(skel, 1, overrides=model, prefix="A.")
-            Bw = concrete_workspace(skel, 2, overrides=model, prefix="B.")
+            # (the solver's counter-model is not used here: any two different workspaces of the skeleton show a stale read)
+            A = concrete_workspace(skel, 1, prefix="A.")
+            Bw = concrete_workspace(skel, 2, prefix="B.")
+            if True:
+                # prefer a second workspace whose ROOT file has the same size as the first one's (only the yields change):
+                # size is then no help in telling the two exports apart
+                import os
+                native_roundtrip(A, f"{tmp}/probeA")
+                size_a = os.path.getsize(f"{tmp}/probeA/data/data.root")
+                for sd in range(2, 40):
+                    cand = concrete_workspace(skel, sd, prefix="B.")
+                    native_roundtrip(cand, f"{tmp}/probeB{sd}")
+                    if os.path.getsize(f"{tmp}/probeB{sd}/data/data.root") == size_a and native_diff(A, cand):
+                        Bw = cand
+                        break
+                pyhf.readxml.clear_filecache()
             d2 = f"{tmp}/other" if mode == "other-dir" else f"{tmp}/out"
+            # both exports within one wall-clock second (the fast-rewrite case): start right after a second boundary
+            import time
+            time.sleep(1.0 - (time.time() % 1.0) + 0.02)
             first = native_roundtrip(A, f"{tmp}/out")
             shutil.copytree(f"{tmp}/out", f"{tmp}/backup", copy_function=shutil.copy2)
             second = native_roundtrip(Bw, d2)
